@@ -54,14 +54,64 @@ INFO = {
  "C20-2": ("signingPublicKeyForVerification guard reduced to HasOfflineKeys()", "LeaseSet2 truncated inside its offline block (flag set, nil block) then Verify()"),
 }
 
+# round 2 (sub-agents told which mechanisms round 1 had used, so as to avoid them); patch k is kept as <ID>-<k+2>
+INFO2 = {
+ "C01-3": ("serializeOnePair rejects an empty key (copied from MappingValues.Add); the parser accepts one, so Mapping.Data() drops the pair and writes a smaller size field", "an accepted wire mapping containing a pair with a zero-length key, in any container (RouterAddress, RouterInfo, LeaseSet2, MetaLeaseSet options)"),
+ "C01-4": ("signing-key slicing of the DSA/P-256/P-384 constructors refactored into one helper; the P-384 call site passes the P-256 size: last 32 of 96 key bytes become zero", "KEY certificate with signing type 2 (ECDSA-P384) whose last 32 key bytes are not all zero"),
+ "C02-3": ("parseRouterAddresses declares the address variable once outside the loop: every appended pointer is the same address", "RouterInfo with >= 2 non-identical addresses read through ReadRouterInfo"),
+ "C02-4": ("MetaLeaseSet reader and serialiser both use flags | options | [offline] instead of flags | [offline] | options", "MetaLeaseSet with the offline-keys flag set (the library still round-trips its own output)"),
+ "C03-3": ("NULL-certificate path of ReadKeysAndCert returns rawData[387:] as remainder instead of the certificate reader's remainder", "NULL certificate declaring a non-zero length (accepted with a warning)"),
+ "C03-4": ("validateMappingInputData rejects only empty input; ReadInteger never fails on short input: the one-byte input 00 parses as a complete empty mapping", "input cut exactly one byte into a mapping size field whose first byte is 0 (also a RouterAddress cut one byte after its transport style)"),
+ "C04-3": ("ReadOfflineSignature computes the bytes left for the signature from len(data)-transientKeySize, forgetting the 6-byte header: slice bounds panic", "input ending 1..6 bytes before the end of the offline signature (also inside LeaseSet2 / MetaLeaseSet / EncryptedLeaseSet)"),
+ "C04-4": ("base32 alphabet check through a [128]bool table indexed by the input byte: index out of range", "any byte 0x80..0xFF before the first invalid ASCII character, in any of the four decoders"),
+ "C05-3": ("MetaLeaseSet.verifyOfflineSignature calls OfflineSignature.VerifySignature and treats every error as 'could not be checked' (fails open)", "MetaLeaseSet with offline keys whose destination signs with DSA / P-256 / P-384 (verifier 'not implemented'), or any type with expires == 0 in a forged block"),
+ "C05-4": ("LeaseSet.Verify uses the LeaseSet's own signing_key (revocation key) when the lease count is zero", "zero-lease LeaseSet whose signing_key differs from the destination's key and whose signature was made with that other key"),
+ "C06-3": ("parseEncryptedInnerData keeps data[:n:n] instead of a copy: the signed content aliases the caller's buffer", "sign, Bytes(), ReadEncryptedLeaseSet(buf), then the caller overwrites buf, then Verify()"),
+ "C06-4": ("LeaseSet2 parser sorts the parsed options by raw I2PString bytes (length byte first) while the builder signs them ordered by key content", "LeaseSet2 with >= 2 options whose keys differ in length such that a shorter key sorts after a longer one (aa, b)"),
+ "C07-3": ("NewKeyCertificate (parse path) trims a KEY certificate's payload to the 4 type bytes: the identity serialises to fewer bytes than were read", "parsed identity whose KEY certificate declares more than 4 payload bytes"),
+ "C07-4": ("KeysAndCert.Bytes() memoises the serialised form in an unexported field that is never invalidated and travels with struct copies", "the identity is serialised / hashed once and only then an exported field (padding byte, signing key) is changed, or a struct copy gets another key"),
+ "C08-3": ("zero-length certificate payload set to bytes[3:] (a view of the caller's buffer) instead of a copy", "NULL / HIDDEN certificate parsed from a buffer with trailing bytes; ExcessBytes / RawBytes / KeyCertificate.Data follow the buffer (serialisation stays correct)"),
+ "C08-4": ("NewLeaseFromBytes returns (*Lease)(data[:LEASE_SIZE]): a typed pointer into the caller's buffer", "44-byte legacy lease through NewLeaseFromBytes, then any overwrite of the first 44 bytes"),
+ "C09-3": ("ReadLeaseSet2 re-reads a refused destination with ReadKeysAndCert and lets 'offline only' signing types through when the OFFLINE_KEYS flag is set", "LeaseSet2 (also the inner one of DecryptInnerData) with flag bit 0, a well-formed offline block and destination signing type Ed25519ph (8)"),
+ "C09-4": ("NewDestination calls Validate() (initialisation and sizes only); the separate key-type policy call is lost in the refactor", "direct NewDestination call with a structurally valid KeysAndCert declaring Ed25519ph, RSA or ML-KEM"),
+ "C10-3": ("offline_signature.SignatureSize gains case arms for the reserved GOST codes 9 and 10", "signing-type code 9 or 10 exactly"),
+ "C10-4": ("validateFixedKeySizes accepts when crypto size OR signing size matches the fixed reader's", "KEY certificate matching a fixed reader in exactly one size, passed to that fixed reader (X25519+P256 through the X25519/Ed25519 reader)"),
+ "C11-3": ("Mapping.Data() sorts the pairs in place before serialising", "well-formed wire mapping with >= 2 pairs not in ascending key order"),
+ "C11-4": ("isCompleteShortPair rewritten as a switch dispatching 5-byte tails on remainder[1] == '=': the pair 01 3d 3d 00 3b lands in the wrong case", "map whose highest-sorting key is exactly '=' with value ''"),
+ "C12-3": ("NewDateFromMillis builds time.Unix(0, millis*1e6): int64 multiplication wraps", "millis above MaxInt64/1e6 = 9,223,372,036,854 (dates after April 2262)"),
+ "C12-4": ("ToI2PString checks utf8.RuneCountInString(data) > 255 while the prefix byte is byte(len(data))", "valid multi-byte UTF-8 content longer than 255 bytes with at most 255 runes"),
+ "C13-3": ("base32 validateEncodedInput counts CR/LF into the 8-character group length", "padded base32 input containing CR or LF, count not a multiple of 8 (valid wrapped input rejected, malformed input completed by line breaks accepted)"),
+ "C13-4": ("base64 encoders chunk inputs above 1 MiB into 1<<20-byte pieces (1<<20 mod 3 = 1): '==' in the middle of the text", "input of at least 1,048,577 bytes"),
+ "C14-3": ("same edit as C01-4 (P-384 signing key truncated on the parse path)", "ECDSA-P384 identity through Bytes -> Read* -> Bytes"),
+ "C14-4": ("parseLeases of the legacy LeaseSet reader: > 16 became >= LEASE_SET_MAX_LEASES", "v1 LeaseSet with exactly 16 leases: NewLeaseSet / Validate / Bytes succeed, ReadLeaseSet rejects its own output"),
+ "C15-3": ("NewLease2 range check on expirationTime.UnixMilli()/1000 instead of Unix(): UnixMilli wraps modulo 2^64", "seconds s with s*1000 mod 2^64 in [0, 2^32*1000): 2^61, 2^62, -2^62, MinInt64, 2^61+1700000000 (probability 2.3e-7 for a uniform int64)"),
+ "C15-4": ("EncryptedLeaseSet.PublishedTime returns time.Time{} when published == 0", "EncryptedLeaseSet with published == 0 exactly (the LeaseSet2 / MetaLeaseSet twins are untouched)"),
+ "C16-3": ("deriveBlindedPublicKey cuts a secret longer than 32 bytes to its first 32 before deriving the factor", "secret strictly longer than 32 bytes"),
+ "C16-4": ("nonce written as 4 zero bytes + 8 random bytes and rebuilt on decryption from wire bytes 4..11 only", "modification of ciphertext offsets 32..35 (4 of ~600 positions)"),
+ "C17-3": ("MappingValues.Get stops early once a stored key compares greater than the requested one (assumes sorted pairs)", "RouterAddress / Mapping read from bytes with options out of ascending key order"),
+ "C17-4": ("HasValidHost returns IPVersion() != \"\" (falls back to the caps suffix)", "host option present but not an IP literal, and a caps option present"),
+ "C18-3": ("Newest/OldestExpiration order the leases with sort.SliceStable on the shared backing array", "LeaseSet with >= 2 leases not in ascending expiry order; the accessor reorders the receiver (Bytes changes, Verify fails, race with concurrent readers)"),
+ "C18-4": ("'unknown key type' warnings rate-limited through an unlocked package-level map written on every lookup", "KeyCertificate with an unknown signing or crypto type, >= 2 goroutines calling the size lookups"),
+ "C19-3": ("KeyCertificateFromCertificate takes the key types through accessors that read the raw payload (including bytes that follow the certificate in the parse buffer)", "KEY certificate with declared payload length 0..3 read by ReadCertificate from a buffer that continues past it"),
+ "C19-4": ("RouterIdentity.AsDestination re-creates the key certificate by re-parsing its own serialisation; a NULL-certificate identity's synthetic key certificate serialises to 00 00 00 and is rejected", "legacy 387-byte NULL-certificate identity through ReadRouterIdentity then AsDestination"),
+ "C20-3": ("parseSingleKeyValuePair returns the earlier string error instead of the delimiter error: the half-read pair (complete key, nil value) is kept and MappingValues.Get slices pair[1][1:]", "RouterAddress / RouterInfo truncated immediately after the '=' of an option whose key an accessor looks up, then that accessor"),
+ "C20-4": ("EncryptedLeaseSet.bytesWithoutSignature writes encryptedInnerData[:innerLength]; the parser stores innerLength before checking that the payload is there", "EncryptedLeaseSet truncated inside its encrypted payload (>= 109 bytes of input) then Bytes() or Verify() on the returned value"),
+}
+MISSED_FIRST_2 = ["C05-4", "C06-3", "C07-4", "C09-3", "C10-4", "C15-3", "C17-3", "C18-4", "C19-3", "C19-4"]
+
 
 def main():
     out_root = os.path.join(V, "seeded")
     os.makedirs(out_root, exist_ok=True)
     n = 0
-    for key in sorted(INFO):
+    allinfo = dict(INFO)
+    allinfo.update(INFO2)
+    for key in sorted(allinfo):
         pid, k = key.split("-")
-        src = os.path.join(SRC, pid + "-out")
+        round2 = key in INFO2
+        if round2:
+            k = str(int(k) - 2)
+        src = os.path.join(SRC, ("R2" if round2 else "") + pid + "-out")
         conf = os.path.join(src, "confirm%s.json" % k)
         if not os.path.exists(conf):
             continue
@@ -78,7 +128,7 @@ def main():
         if os.path.exists(os.path.join(src, "notes.md")):
             shutil.copy(os.path.join(src, "notes.md"), os.path.join(dst, "notes.md"))
         caught, missed, detail = [], [], {}
-        rp = os.path.join(SRC, "results", "%s.json" % key)
+        rp = os.path.join(SRC, "results2" if round2 else "results", "%s-%s.json" % (pid, k))
         if os.path.exists(rp):
             try:
                 r = json.load(open(rp))
@@ -97,7 +147,7 @@ def main():
                     detail[cid] = v["detail"][:300]
                     if cid in missed:
                         missed.remove(cid)
-        what, needs = INFO[key]
+        what, needs = allinfo[key]
         meta = dict(
             property=pid, seed=key, origin="sub-agent given only the property text and a scratch worktree",
             what=what, needs_to_manifest=needs,
@@ -105,7 +155,8 @@ def main():
                 how="seedtool.py confirm: patch applied in a scratch worktree of /repo, `go build ./...`, full existing suite (`go test -vet=off -count=1 ./...`), demo with the patch, patch reverted, demo again" + (" (demo under -race)" if pid == "C18" else ""),
                 suite_passes_with_patch=c.get("suite_rc") == 0, demo_fails_with_patch=c.get("demo_rc_with") != 0, demo_passes_without_patch=c.get("demo_rc_without") == 0,
                 demo_dir=c.get("demo_dir")),
-            checks_run="quick tier of every check against a scratch worktree with the patch applied (seedtool.py run, VERIF_REPO)",
+            checks_run=("quick tier of the target check (and of the neighbouring checks listed) against a scratch worktree with the patch applied (seedtool.py run, VERIF_REPO)" if round2 else "quick tier of every check against a scratch worktree with the patch applied (seedtool.py run, VERIF_REPO)"),
+            missed_at_first=(key in MISSED_FIRST_2) if round2 else None,
             caught_by=sorted(caught), first_report=detail.get(pid) or (detail[sorted(detail)[0]] if detail else ""),
             not_reporting=sorted(missed))
         json.dump(meta, open(os.path.join(dst, "meta.json"), "w"), indent=1)
